@@ -1,5 +1,605 @@
 import Netpol.Model.Exposure
+import Netpol.Spec.K8s
+import Netpol.Proofs.ExposureLayer
+import Netpol.Proofs.ExposureBuild
+import Netpol.Properties.C01
+
+/-! C06: "Running `list --exposure` reports the same workload/IP connectivity as without the
+flag, marks a workload 'not protected' in a direction iff no NetworkPolicy governs it in that
+direction, and every reported exposure entry is realizable: for any hypothetical new pod whose
+labels and namespace labels satisfy the entry's selectors (any pod at all for 'entire-cluster'),
+the workload's policies in that direction allow at least the reported connections (a named port
+meaning that name as declared by the hypothetical pod)."
+
+The model of the exposure analysis is `Netpol.Model.Exposure`; the proofs are in
+`Netpol.Proofs.ExposureLayer`.
+
+Vocabulary.
+* `Exposure.Dev x y` — `y = x`, unless `x` is the failure `namedPortOnIP` (the one recorded
+  deviation of exposure mode: a policy whose pre-scanned connection is "all connections" answers
+  without evaluating its rules, so that a rule with a named port is never evaluated against an IP
+  block and the error of the plain analysis does not arise).
+* `Exposure.NpValid e` — the rules of the engine's NetworkPolicies are as the API server accepts
+  them (legal port numbers, no rule peer without selector and ipBlock).
+* `LPeer.Real p` — a peer of the report that stands for real objects (a workload whose pod is not a
+  representative peer and declares legal container ports, or an IP range).
+* `Exposure.RepWF rp` — a representative pod as `addRepresentativePod` builds it (fake, named
+  `representative-pod`, no container ports).
+* a hypothetical pod is a `Pod` `q` together with the labels `nsl` of its namespace (an existing
+  or a new one); `Exposure.Sat P N q nsl` — `q` satisfies the pod selector `P` and `nsl` the
+  namespace selector `N` of an entry; `Exposure.NsConsistent q nsl` — `nsl` carries the name of
+  `q`'s namespace under `kubernetes.io/metadata.name` (set by the API server on every namespace).
+* `Exposure.Faithful e P N` — `SelectorsFullMatch` is semantically sound for the rule selectors of
+  the engine's policies against the representative selectors `P`, `N`: labels that satisfy the
+  representative selector satisfy a rule selector with the same requirement strings.
+* `Exposure.denFor i c q pr x` — the points a reported connection set `c` stands for, for the
+  hypothetical pod `q`: its numeric points and, on egress (`i = false`), each named port as `q`
+  declares it. (On ingress named ports were converted against the workload itself.)
+* `Exposure.dstEnd i pod nslw q nsl` — the destination of the query: the workload on ingress, the
+  hypothetical pod on egress. -/
 namespace Netpol.Properties.C06
-open Netpol
+open Netpol Engine Exposure
+
+/-! ### 0. what `Exposure.build` provides
+
+The theorems below are stated for an arbitrary `XEngine` under explicit hypotheses. Those on the
+engine's shape hold of every engine `Exposure.build` returns: no admin policies, well-formed
+representative pods, and the namespaces of the representative pods exist (so that
+`xgressExposure` does not fail with `missingNamespace`, `Exposure.xgressExposure_ok`). -/
+
+theorem build_provides {objs : List Obj} {x : XEngine} (h : Exposure.build objs = .ok x) :
+    x.eng.anps = [] ∧ x.eng.banp = none ∧ (∀ krp ∈ x.reps, RepWF krp.2) ∧ RepNamespaces x :=
+  ⟨(build_np_only h).1, (build_np_only h).2, build_repWF h, build_repNamespaces h⟩
+
+/-! ### 1. the base report is the report of `list` -/
+
+/-- one policy: the exposure-mode evaluation (with the two shortcuts through the pre-scanned
+connections) yields the value of the plain evaluation, unless the latter fails with the
+named-port-on-IP error. `src`/`dst` are real peers: pods or IP blocks. -/
+theorem policy_conns_unchanged (np : NetPol) (src dst : KPeer) (i : Bool)
+    (hv : ∀ r ∈ Spec.npRules np (dirOf i), r.Valid) (hd : dst.DstOK)
+    (ho : (otherPeer src dst i).isRepresentative = false) :
+    Dev (npStep src dst i np) (policyConns np src dst i) :=
+  policyConns_dev np src dst i hv hd ho
+
+/-- in particular: whenever the plain evaluation of a policy succeeds, the shortcut returns the
+same connection set (as a value, hence with the same printed string) -/
+theorem policy_conns_unchanged_of_ok (np : NetPol) (src dst : KPeer) (i : Bool)
+    (hv : ∀ r ∈ Spec.npRules np (dirOf i), r.Valid) (hd : dst.DstOK)
+    (ho : (otherPeer src dst i).isRepresentative = false) (c : ConnSet)
+    (h : npStep src dst i np = .ok c) : policyConns np src dst i = .ok c :=
+  (policyConns_dev np src dst i hv hd ho).ok_imp h
+
+/-- one direction, engine without admin policies -/
+theorem direction_conns_unchanged (e : Engine) (ha : e.anps = []) (hb : e.banp = none)
+    (hv : NpValid e) (src dst : KPeer) (i : Bool) (hd : dst.DstOK)
+    (ho : (otherPeer src dst i).isRepresentative = false) :
+    Dev (e.xgressConns src dst i) (Exposure.xgressConns e src dst i) :=
+  xgressConns_dev e ha hb hv src dst i hd ho
+
+/-- one pair of real peers -/
+theorem pair_conns_unchanged (e : Engine) (ha : e.anps = []) (hb : e.banp = none) (hv : NpValid e)
+    (src dst : KPeer) (hs : src.isRepresentative = false) (hd : dst.DstOK) :
+    Dev (e.peerConns src dst) (Exposure.peerConns e src dst) :=
+  peerConns_dev e ha hb hv src dst hs hd
+
+/-- the base report over real peers: the report of `list --exposure` is the report of `list`,
+unless `list` fails with the named-port-on-IP error -/
+theorem base_report_unchanged (e : Engine) (ha : e.anps = []) (hb : e.banp = none) (hv : NpValid e)
+    (peers : List LPeer) (hp : ∀ p ∈ peers, p.Real) (focus : String) :
+    Dev (e.connsBetweenPeers peers focus) (Exposure.connsBetweenPeers e peers focus) :=
+  connsBetweenPeers_dev e ha hb hv peers hp focus
+
+/-- whenever `list` produces a report, `list --exposure` produces the same entries -/
+theorem base_report_of_plain_ok (e : Engine) (ha : e.anps = []) (hb : e.banp = none)
+    (hv : NpValid e) (peers : List LPeer) (hp : ∀ p ∈ peers, p.Real) (focus : String)
+    (l : List Entry) (h : e.connsBetweenPeers peers focus = .ok l) :
+    Exposure.connsBetweenPeers e peers focus = .ok l :=
+  (base_report_unchanged e ha hb hv peers hp focus).ok_imp h
+
+/-- the minimal hypothesis that excludes the recorded deviation: the plain run does not end in the
+named-port-on-IP error. Then the two runs agree, also on every other failure. -/
+theorem base_report_eq (e : Engine) (ha : e.anps = []) (hb : e.banp = none) (hv : NpValid e)
+    (peers : List LPeer) (hp : ∀ p ∈ peers, p.Real) (focus : String)
+    (hne : e.connsBetweenPeers peers focus ≠ .error .namedPortOnIP) :
+    Exposure.connsBetweenPeers e peers focus = e.connsBetweenPeers peers focus := by
+  rcases base_report_unchanged e ha hb hv peers hp focus with h | h
+  · exact h
+  · exact absurd h hne
+
+/-- a syntactic sufficient condition for one pair: no policy rule holds a named port — then the
+plain evaluation of a pair of concrete peers never fails (C01) and the two evaluations agree -/
+theorem pair_conns_eq_of_no_failure (e : Engine) (ha : e.anps = []) (hb : e.banp = none)
+    (hv : NpValid e) (src dst : KPeer) (hs : src.isRepresentative = false) (hd : dst.DstOK)
+    (c : ConnSet) (h : Exposure.peerConns e src dst = .ok c)
+    (hne : e.peerConns src dst ≠ .error .namedPortOnIP) : e.peerConns src dst = .ok c := by
+  rcases pair_conns_unchanged e ha hb hv src dst hs hd with h' | h'
+  · rw [← h', h]
+  · exact absurd h' hne
+
+/-- the two runs on the same input objects. `Exposure.build` (policies and namespaces first, missing
+namespaces created on the way) and `Engine.build` (input order, missing namespaces created at the
+end) yield the same peers list, and the base report of `list --exposure` is the report of `list`,
+unless `list` fails with the named-port-on-IP error -/
+theorem runs_same_report (objs : List Obj) (x : XEngine) (e : Engine)
+    (hx : Exposure.build objs = .ok x) (he : Engine.build objs = .ok e) (hv : NpValid e)
+    (peers : List LPeer) (hpl : e.peersList = .ok peers) (hreal : ∀ p ∈ peers, p.Real)
+    (focus : String) :
+    x.eng.peersList = .ok peers ∧
+      Dev (e.connsBetweenPeers peers focus) (Exposure.connsBetweenPeers x.eng peers focus) :=
+  runs_agree hx he hv peers hpl hreal focus
+
+/-! ### 2. the 'protected' flag -/
+
+/-- a workload is marked protected in a direction iff some NetworkPolicy of the engine selects it
+and affects that direction -/
+theorem protected_iff (e : Engine) (pod : Pod) (i : Bool) :
+    isProtected e pod i = true ↔
+      ∃ np ∈ e.netpols, np.selects pod (dirOf i) = true :=
+  isProtected_iff e pod i
+
+/-- with the definition of `selects` spelled out for a real pod: same namespace, the policy affects
+the direction, the pod selector matches -/
+theorem protected_iff_governs (e : Engine) (pod : Pod) (hrep : pod.isRepresentative = false)
+    (i : Bool) : isProtected e pod i = Spec.governs e.toView pod (dirOf i) := by
+  rw [Bool.eq_iff_iff, protected_iff, governs_iff e pod (dirOf i) hrep]
+
+/-- 'not protected' iff no NetworkPolicy governs the workload in the direction -/
+theorem not_protected_iff (e : Engine) (pod : Pod) (hrep : pod.isRepresentative = false) (i : Bool) :
+    isProtected e pod i = false ↔ ¬ ∃ np ∈ e.netpols, Spec.npSelects np pod (dirOf i) = true := by
+  rw [← Bool.not_eq_true, protected_iff]
+  simp only [NetPol.selects_spec _ pod (dirOf i) hrep]
+
+/-- the flag reported for a workload in one direction is `isProtected`: an unprotected workload
+gets `(false, [])`; a protected one gets `true`, or no entry at all when nothing is exposed -/
+theorem reported_flag (x : XEngine) (hv : NpValid x.eng) (hreps : ∀ krp ∈ x.reps, RepWF krp.2)
+    (n : String) (pod : Pod) (hpod : pod.isRepresentative = false ∧ pod.ValidPorts)
+    (hname : pod.name ≠ representativePodName) (i : Bool) (res : Option (Bool × List XEntry))
+    (h : xgressExposure x (.wl n pod) i = .ok res) :
+    (res.getD (true, [])).1 = isProtected x.eng pod i ∧
+    (isProtected x.eng pod i = false → res = some (false, [])) := by
+  obtain ⟨ns, _, h1 | h1⟩ := xgressExposure_spec x hv hreps n pod hpod hname i res h
+  · obtain ⟨hp, rfl⟩ := h1
+    exact ⟨hp.symm, fun _ => rfl⟩
+  · obtain ⟨hp, cw, perRep, _, _, rfl⟩ := h1
+    refine ⟨?_, fun hf => by rw [hp] at hf; cases hf⟩
+    rw [hp]
+    split <;> rfl
+
+/-- the report: every exposed peer is a focus workload of the peers list, and its two flags are
+`isProtected` of the two directions -/
+theorem report_flags (x : XEngine) (hv : NpValid x.eng) (hreps : ∀ krp ∈ x.reps, RepWF krp.2)
+    (peers : List LPeer)
+    (hp : ∀ n pod, LPeer.wl n pod ∈ peers →
+      (pod.isRepresentative = false ∧ pod.ValidPorts) ∧ pod.name ≠ representativePodName)
+    (focus : String) (xs : List XPeer) (h : exposedPeers x peers focus = .ok xs) :
+    ∀ xp ∈ xs, ∃ n pod, LPeer.wl n pod ∈ peers ∧ isFocus focus (.wl n pod) = true ∧ xp.name = n ∧
+      xp.ingProtected = isProtected x.eng pod true ∧
+      xp.egProtected = isProtected x.eng pod false := by
+  intro xp hxp
+  obtain ⟨n, pod, ri, rg, hw, hf, hi, hg, rfl⟩ := exposedPeers_mem h hxp
+  obtain ⟨hpod, hname⟩ := hp n pod hw
+  exact ⟨n, pod, hw, hf, rfl, (reported_flag x hv hreps n pod hpod hname true ri hi).1,
+    (reported_flag x hv hreps n pod hpod hname false rg hg).1⟩
+
+/-! ### 3. and 4. every reported entry is realizable -/
+
+/-- without admin policies, what `Spec.npAllows` allows is allowed in the direction -/
+theorem allowedDir_of_npAllows (v : Spec.View) (ha : v.anps = []) (hb : v.banp = none) (p : Pod)
+    (l : Labels) (other dst : Spec.End) (d : Dir) (pr : Proto) (x : Int)
+    (h : Spec.npAllows v p other dst d pr x = true) :
+    Spec.allowedDir v (.pod p l) other dst d pr x = true := by
+  rw [C01.allowedDir_np_only v ha hb]
+  simp only [C01.npOnlyDir]
+  split
+  · exact h
+  · rfl
+
+/-- an exposure entry is realizable: for every hypothetical pod that satisfies its selectors (any
+pod for the entire-cluster entry), the workload's policies of the direction allow every point the
+entry stands for -/
+def Realizable (e : Engine) (pod : Pod) (nslw : Labels) (i : Bool) (en : XEntry) : Prop :=
+  ∀ (q : Pod) (nsl : Labels),
+    (en.entireCluster = true ∨
+      (Sat en.podSel en.nsSel q nsl ∧ NsConsistent q nsl ∧ Faithful e en.podSel en.nsSel)) →
+    ∀ pr x, denFor i en.conn q pr x →
+      Spec.allowedDir e.toView (.pod pod nslw) (.pod q nsl) (dstEnd i pod nslw q nsl) (dirOf i) pr x
+        = true
+
+/-- Rung 3: the entire-cluster connection of a workload is allowed with every pod whatsoever
+(any labels, any namespace labels, an existing or a new namespace): every numeric point, and on
+egress every named port as the other pod declares it. On ingress the named ports of the rules were
+converted against the workload's own container ports. -/
+theorem entire_cluster_sound (e : Engine) (ha : e.anps = []) (hb : e.banp = none) (hv : NpValid e)
+    (pod : Pod) (hpod : pod.isRepresentative = false ∧ pod.ValidPorts) (nslw : Labels) (i : Bool)
+    (cw : ConnSet) (hcw : clusterWideConn e pod i = .ok cw) (q : Pod) (nsl : Labels) (pr : Proto)
+    (x : Int) (h : denFor i cw q pr x) :
+    Spec.allowedDir e.toView (.pod pod nslw) (.pod q nsl) (dstEnd i pod nslw q nsl) (dirOf i) pr x
+      = true :=
+  allowedDir_of_npAllows e.toView ha hb pod nslw _ _ _ pr x
+    (clusterWide_sound e hv pod hpod nslw i cw hcw q nsl pr x h)
+
+/-- Rungs 3 and 4 for the result of one workload in one direction: every entry is realizable -/
+theorem exposure_entries_realizable (x : XEngine) (ha : x.eng.anps = []) (hb : x.eng.banp = none)
+    (hv : NpValid x.eng) (hreps : ∀ krp ∈ x.reps, RepWF krp.2) (n : String) (pod : Pod)
+    (hpod : pod.isRepresentative = false ∧ pod.ValidPorts)
+    (hname : pod.name ≠ representativePodName) (i : Bool) (prot : Bool) (entries : List XEntry)
+    (h : xgressExposure x (.wl n pod) i = .ok (some (prot, entries))) :
+    ∃ ns, x.eng.findNs pod.ns = some ns ∧
+      ∀ en ∈ entries, Realizable x.eng pod ns.labels i en := by
+  obtain ⟨ns, hns, h1 | h1⟩ := xgressExposure_spec x hv hreps n pod hpod hname i _ h
+  · obtain ⟨_, heq⟩ := h1
+    cases heq
+    exact ⟨ns, hns, fun en hen => by cases hen⟩
+  · obtain ⟨_, cw, perRep, hcw, hX, heq⟩ := h1
+    refine ⟨ns, hns, ?_⟩
+    have hent : entries = general cw ++ perRep := by
+      split at heq
+      · cases heq
+      · cases heq; rfl
+    subst hent
+    intro en hen q nsl hq pr p hden
+    rcases List.mem_append.mp hen with hg | hr
+    · -- the entire-cluster entry
+      have : en = ⟨true, none, none, cw⟩ := by
+        unfold general at hg
+        split at hg
+        · cases hg
+        · exact List.mem_singleton.mp hg
+      subst this
+      exact entire_cluster_sound x.eng ha hb hv pod hpod ns.labels i cw hcw q nsl pr p hden
+    · -- a selector entry
+      obtain ⟨krp, _, c, hs, _, rfl⟩ := hX.sound en hr
+      rcases hq with hq | ⟨hsat, hcons, hF⟩
+      · cases hq
+      · exact allowedDir_of_npAllows x.eng.toView ha hb pod ns.labels _ _ _ pr p
+          (entrySpec_sound x.eng pod hpod.1 ns i _ _ c hs hF q nsl hsat hcons pr p hden)
+
+/-- The same for the engine `Exposure.build` returns, when the selectors of the input have label
+syntax (`SelectorsOK`: keys and values hold none of the characters space, `=`, `!`, `,`, `(`, `)`,
+and `NotIn` requirements have a value): the hypothesis `Faithful` is then a theorem
+(`Netpol.Proofs.SelectorStrings`: selectors with the same requirement strings select the same label
+sets), and so are the hypotheses on the shape of the engine. -/
+theorem exposure_entries_realizable_build (objs : List Obj) (x : XEngine)
+    (hbuild : Exposure.build objs = .ok x) (hv : NpValid x.eng) (hok : SelectorsOK x.eng)
+    (n : String) (pod : Pod) (hpod : pod.isRepresentative = false ∧ pod.ValidPorts)
+    (hname : pod.name ≠ representativePodName) (i : Bool) (prot : Bool) (entries : List XEntry)
+    (h : xgressExposure x (.wl n pod) i = .ok (some (prot, entries))) :
+    ∃ ns, x.eng.findNs pod.ns = some ns ∧
+      ∀ en ∈ entries, ∀ (q : Pod) (nsl : Labels),
+        (en.entireCluster = true ∨ (Sat en.podSel en.nsSel q nsl ∧ NsConsistent q nsl)) →
+        ∀ pr p, denFor i en.conn q pr p →
+          Spec.allowedDir x.eng.toView (.pod pod ns.labels) (.pod q nsl)
+            (dstEnd i pod ns.labels q nsl) (dirOf i) pr p = true := by
+  obtain ⟨ha, hb, hreps, _⟩ := build_provides hbuild
+  obtain ⟨ns, hns, h1 | h1⟩ := xgressExposure_spec x hv hreps n pod hpod hname i _ h
+  · obtain ⟨_, heq⟩ := h1
+    cases heq
+    exact ⟨ns, hns, fun en hen => by cases hen⟩
+  · obtain ⟨_, cw, perRep, hcw, hX, heq⟩ := h1
+    refine ⟨ns, hns, ?_⟩
+    have hent : entries = general cw ++ perRep := by
+      split at heq
+      · cases heq
+      · cases heq; rfl
+    subst hent
+    intro en hen q nsl hq pr p hden
+    rcases List.mem_append.mp hen with hg | hr
+    · have : en = ⟨true, none, none, cw⟩ := by
+        unfold general at hg
+        split at hg
+        · cases hg
+        · exact List.mem_singleton.mp hg
+      subst this
+      exact entire_cluster_sound x.eng ha hb hv pod hpod ns.labels i cw hcw q nsl pr p hden
+    · obtain ⟨krp, hk, c, hs, _, rfl⟩ := hX.sound en hr
+      rcases hq with hq | ⟨hsat, hcons⟩
+      · cases hq
+      · exact allowedDir_of_npAllows x.eng.toView ha hb pod ns.labels _ _ _ pr p
+          (entrySpec_sound x.eng pod hpod.1 ns i _ _ c hs (build_faithful hbuild hok krp hk) q nsl
+            hsat hcons pr p hden)
+
+/-- the same for the whole report: every entry of every exposed peer is realizable -/
+theorem exposed_peers_realizable (x : XEngine) (ha : x.eng.anps = []) (hb : x.eng.banp = none)
+    (hv : NpValid x.eng) (hreps : ∀ krp ∈ x.reps, RepWF krp.2) (peers : List LPeer)
+    (hp : ∀ n pod, LPeer.wl n pod ∈ peers →
+      (pod.isRepresentative = false ∧ pod.ValidPorts) ∧ pod.name ≠ representativePodName)
+    (focus : String) (xs : List XPeer) (h : exposedPeers x peers focus = .ok xs) :
+    ∀ xp ∈ xs, ∃ pod ns, LPeer.wl xp.name pod ∈ peers ∧ x.eng.findNs pod.ns = some ns ∧
+      (∀ en ∈ xp.ing, Realizable x.eng pod ns.labels true en) ∧
+      (∀ en ∈ xp.eg, Realizable x.eng pod ns.labels false en) := by
+  intro xp hxp
+  obtain ⟨n, pod, ri, rg, hw, _, hi, hg, rfl⟩ := exposedPeers_mem h hxp
+  obtain ⟨hpod, hname⟩ := hp n pod hw
+  obtain ⟨ns, hns, _⟩ := xgressExposure_spec x hv hreps n pod hpod hname true ri hi
+  refine ⟨pod, ns, hw, hns, ?_, ?_⟩
+  · cases ri with
+    | none => intro en hen; cases hen
+    | some r =>
+      obtain ⟨b, l⟩ := r
+      obtain ⟨ns', hns', hall⟩ := exposure_entries_realizable x ha hb hv hreps n pod hpod hname true
+        b l hi
+      rw [hns] at hns'
+      cases hns'
+      exact hall
+  · cases rg with
+    | none => intro en hen; cases hen
+    | some r =>
+      obtain ⟨b, l⟩ := r
+      obtain ⟨ns', hns', hall⟩ := exposure_entries_realizable x ha hb hv hreps n pod hpod hname false
+        b l hg
+      rw [hns] at hns'
+      cases hns'
+      exact hall
+
+/-- Engine form of realizability, for a hypothetical pod that is given as a real peer `kq` (a pod
+with a namespace object): the plain evaluation of the direction (`Engine.xgressConns`, the analysis
+of `list` without the flag) contains every in-range point the entry stands for -/
+theorem realizable_engine (e : Engine) (ha : e.anps = []) (hb : e.banp = none) (hv : NpValid e)
+    (pod : Pod) (hpod : pod.isRepresentative = false ∧ pod.ValidPorts) (nsw : NsObj) (i : Bool)
+    (en : XEntry) (hre : Realizable e pod nsw.labels i en) (q : Pod)
+    (hq : q.isRepresentative = false ∧ q.ValidPorts) (nsq : NsObj)
+    (hsat : en.entireCluster = true ∨ (Sat en.podSel en.nsSel q nsq.labels ∧
+      NsConsistent q nsq.labels ∧ Faithful e en.podSel en.nsSel))
+    (c : ConnSet)
+    (hc : e.xgressConns (xSrc i (.pod q (some nsq)) (.pod pod (some nsw)))
+      (xDst i (.pod q (some nsq)) (.pod pod (some nsw))) i = .ok c) :
+    ∀ pr x, inRange x → denFor i en.conn q pr x → c.contains pr x = true := by
+  intro pr x hx hden
+  have hal := hre q nsq.labels hsat pr x hden
+  have hval : e.Valid := C01.valid_np_only e ha hb hv
+  cases i
+  · obtain ⟨s1, _⟩ := xgressConns_spec e hval (.pod pod (some nsw)) (.pod q (some nsq)) 0 0 hpod.1
+      hq.1 hq false
+    obtain ⟨hw, hd⟩ := s1 c hc
+    rw [ConnSet.contains_iff hw pr hx, hd]
+    exact ⟨hx, hal⟩
+  · obtain ⟨s1, _⟩ := xgressConns_spec e hval (.pod q (some nsq)) (.pod pod (some nsw)) 0 0 hq.1
+      hpod.1 hpod true
+    obtain ⟨hw, hd⟩ := s1 c hc
+    rw [ConnSet.contains_iff hw pr hx, hd]
+    exact ⟨hx, hal⟩
+
+/-! ### non-vacuity: a concrete engine -/
+namespace Examples
+attribute [local instance] Engine.decEqExcept
+
+def nsDefault : NsObj := ⟨"default", [("kubernetes.io/metadata.name", "default")]⟩
+def web : Pod :=
+  { ns := "default", name := "web", labels := [("app", "web")], ports := [⟨"http", .TCP, 8080⟩] }
+def other : Pod :=
+  { ns := "default", name := "other", labels := [("app", "other")], ports := [] }
+
+def selClient : Selector := ⟨[("app", "client")], []⟩
+def selProd : Selector := ⟨[("env", "prod")], []⟩
+
+/-- selects `web`. Ingress: from pods `app=client` of the policy's namespace on the named port
+`http` and UDP 53; from the entire cluster on TCP 9090. Egress: to every pod of the namespaces
+`env=prod` on the named port `pg` and TCP 5432; to everything on UDP 53. -/
+def np : NetPol :=
+  { ns := "default", name := "np", podSel := ⟨[("app", "web")], []⟩, types := [.ingress, .egress],
+    ingress := [⟨[.sel (some selClient) none], [⟨none, .name "http"⟩, ⟨some .UDP, .num 53 none⟩]⟩,
+                ⟨[.sel none (some ⟨[], []⟩)], [⟨none, .num 9090 none⟩]⟩],
+    egress := [⟨[.sel none (some selProd)], [⟨none, .name "pg"⟩, ⟨none, .num 5432 none⟩]⟩,
+               ⟨[], [⟨some .UDP, .num 53 none⟩]⟩] }
+
+def repClient : Pod :=
+  { ns := "default", name := representativePodName, labels := [], ports := [], fake := true,
+    reprPodSel := some selClient, reprNsSel := some (nsNameSelector "default") }
+def repProd : Pod :=
+  { ns := "", name := representativePodName, labels := [], ports := [], fake := true,
+    reprPodSel := none, reprNsSel := some selProd }
+
+/-- the engine `Exposure.build` yields for the namespace, the two pods and the policy (checked with
+`#eval`: the two representative peers, in this order, under these keys) -/
+def ex : XEngine :=
+  { eng := { namespaces := [nsDefault], pods := [web, other], netpols := [np], exposure := true },
+    reps := [("kubernetes.io/metadata.name=default/app=client", repClient), ("env=prod/", repProd)] }
+
+/-- `ex` is what `Exposure.build` returns for the namespace, the two pods and the policy -/
+def exObjs : List Obj := [.ns nsDefault, .pod web, .pod other, .np np]
+
+theorem allSels_np : allSels np = [⟨some selClient, none⟩, ⟨none, some selProd⟩] := by rfl
+
+theorem key1 : keyOf "default" ⟨some selClient, none⟩ =
+    "kubernetes.io/metadata.name=default/app=client" := by
+  simp [keyOf, nsOf, uniqueKey, nsNameSelector, Selector.reqStrings, selClient, nsNameLabelKey,
+    String.join]
+theorem key2 : keyOf "default" ⟨none, some selProd⟩ = "env=prod/" := by
+  simp [keyOf, nsOf, uniqueKey, Selector.reqStrings, selProd, String.join]
+
+theorem build_ex : Exposure.build exObjs = .ok ex := by
+  rw [build_eq]
+  have h1 : (exObjs.filter isPolNs) = [.ns nsDefault, .np np] := rfl
+  have h2 : (exObjs.filter (fun o => !isPolNs o)) = [.pod web, .pod other] := rfl
+  rw [h1, h2]
+  have s1 : bstep x0 (.ns nsDefault) =
+      .ok ⟨{ namespaces := [nsDefault], exposure := true }, []⟩ := rfl
+  have s2 : bstep ⟨{ namespaces := [nsDefault], exposure := true }, []⟩ (.np np) =
+      .ok ⟨{ namespaces := [nsDefault], netpols := [np], exposure := true }, ex.reps⟩ := by
+    unfold bstep
+    have hins : ({ namespaces := [nsDefault], exposure := true } : Engine).insertNetpol np =
+        .ok { namespaces := [nsDefault], netpols := [np], exposure := true } := rfl
+    simp only [hins, bind, Except.bind, pure, Except.pure]
+    have hd : npDefaulted np = np := rfl
+    rw [hd, allSels_np]
+    simp only [addAll, List.foldl_cons, List.foldl_nil, addRepresentative_eq]
+    have hns : np.ns = "default" := rfl
+    rw [hns, key1, key2]
+    simp [newRep, nsOf, ex, repClient, repProd, Engine.findNs, nsDefault]
+  have s3 : bstep ⟨{ namespaces := [nsDefault], netpols := [np], exposure := true }, ex.reps⟩
+      (.pod web) =
+      .ok ⟨{ namespaces := [nsDefault], pods := [web], netpols := [np], exposure := true }, ex.reps⟩ :=
+    by rfl
+  have s4 : bstep ⟨{ namespaces := [nsDefault], pods := [web], netpols := [np], exposure := true },
+      ex.reps⟩ (.pod other) = .ok ex := by rfl
+  simp only [List.foldlM_cons, List.foldlM_nil, s1, s2, s3, s4, bind, Except.bind, pure, Except.pure]
+
+def wWeb : LPeer := .wl "default/web[Pod]" web
+def wOther : LPeer := .wl "default/other[Pod]" other
+def peers : List LPeer := [.ip ⟨0, 4294967295⟩, wWeb, wOther]
+
+/-! the hypotheses hold -/
+example : ex.eng.anps = [] ∧ ex.eng.banp = none := ⟨rfl, rfl⟩
+example : NpValid ex.eng := by decide
+example : NamesNonEmpty ex.eng := by decide
+example : ∀ krp ∈ ex.reps, RepWF krp.2 := by decide
+example : RepNamespaces ex := by decide
+example : ∀ p ∈ peers, p.Real := by decide
+example : (web.isRepresentative = false ∧ web.ValidPorts) ∧ web.name ≠ representativePodName := by
+  decide
+example : ex.eng.findNs web.ns = some nsDefault := by decide
+/-- validity is not trivially true -/
+example : ¬ NpValid { ex.eng with netpols := [{ np with ingress := [⟨[.sel none none], []⟩] }] } := by
+  decide
+
+/-! 1. the base report (both sides evaluate, and the theorem applies) -/
+theorem plain_report_ok : (match ex.eng.connsBetweenPeers peers "" with
+    | .ok l => l.length
+    | .error _ => 0) = 5 := by decide
+example : Exposure.connsBetweenPeers ex.eng peers "" = ex.eng.connsBetweenPeers peers "" :=
+  base_report_eq ex.eng rfl rfl (by decide) peers (by decide) "" (by
+    intro h
+    have := plain_report_ok
+    rw [h] at this
+    cases this)
+
+/-- the selectors of the example have label syntax -/
+example : SelectorsOK ex.eng := by decide
+
+/-- the plain engine for the same objects, and its peers list (the theorem `runs_same_report`
+applies: its hypotheses hold) -/
+def exPlain : Engine := { namespaces := [nsDefault], pods := [web, other], netpols := [np] }
+theorem build_plain : Engine.build exObjs = .ok exPlain := by rfl
+example : ∃ ps, exPlain.peersList = .ok ps ∧ (∀ p ∈ ps, p.Real) ∧ NpValid exPlain ∧
+    ex.eng.peersList = .ok ps ∧
+    Dev (exPlain.connsBetweenPeers ps "") (Exposure.connsBetweenPeers ex.eng ps "") := by
+  have hpl : ∃ ps, exPlain.peersList = .ok ps ∧ ∀ p ∈ ps, p.Real := by
+    cases h : exPlain.peersList with
+    | error err =>
+      exfalso
+      have : (match exPlain.podOwnersMap with | .ok _ => true | .error _ => false) = true := by decide
+      unfold Engine.peersList at h
+      cases ho : exPlain.podOwnersMap with
+      | error e' => rw [ho] at this; cases this
+      | ok o => rw [ho] at h; cases h
+    | ok ps =>
+      refine ⟨ps, rfl, ?_⟩
+      intro p hp
+      cases p with
+      | ip r => trivial
+      | wl n pod =>
+        have hmem := peersList_pods h hp
+        have : pod = web ∨ pod = other := by simpa [exPlain] using hmem
+        rcases this with rfl | rfl
+        · exact (by decide : web.isRepresentative = false ∧ web.ValidPorts)
+        · exact (by decide : other.isRepresentative = false ∧ other.ValidPorts)
+  obtain ⟨ps, h1, h2⟩ := hpl
+  obtain ⟨h3, h4⟩ := runs_same_report exObjs ex exPlain build_ex build_plain (by decide) ps h1 h2 ""
+  exact ⟨ps, h1, h2, by decide, h3, h4⟩
+
+/-- the recorded deviation: an egress rule with a named port towards an ipBlock, next to a rule that
+allows everything. `list` fails, `list --exposure` answers "All Connections" for the pair. -/
+def npDev : NetPol :=
+  { ns := "default", name := "dev", podSel := ⟨[("app", "web")], []⟩, types := [.egress],
+    ingress := [],
+    egress := [⟨[.ip ⟨0x0A000000, 8⟩ []], [⟨none, .name "dns"⟩]⟩, ⟨[], []⟩] }
+def engDev : Engine := { namespaces := [nsDefault], pods := [web], netpols := [npDev], exposure := true }
+example : NpValid engDev := by decide
+example : engDev.peerConns (.pod web (some nsDefault)) (.ip [⟨167772160, 184549375⟩]) =
+      .error .namedPortOnIP ∧
+    Exposure.peerConns engDev (.pod web (some nsDefault)) (.ip [⟨167772160, 184549375⟩]) =
+      .ok (ConnSet.mk' true) := by decide
+
+/-! Finding (why the theorems ask for `pod.name ≠ representativePodName`): `isPodToItself` compares
+pod name and namespace only, and every representative pod is named `representative-pod`. A real Pod
+with that name, in the namespace of a policy whose rule has no namespaceSelector, is "the same pod"
+as the representative peer of that rule: the pair evaluates to "All Connections", which is then
+reported as the exposure entry — here for a policy that allows TCP 80 only. -/
+def rpod : Pod :=
+  { ns := "default", name := "representative-pod", labels := [("app", "web")], ports := [] }
+def npR : NetPol :=
+  { ns := "default", name := "r", podSel := ⟨[("app", "web")], []⟩, types := [.ingress],
+    ingress := [⟨[.sel (some selClient) none], [⟨none, .num 80 none⟩]⟩], egress := [] }
+def engR : Engine := { namespaces := [nsDefault], pods := [rpod], netpols := [npR], exposure := true }
+example : Exposure.peerConns engR (.pod repClient (some nsDefault)) (.pod rpod (some nsDefault)) =
+      .ok (ConnSet.mk' true) ∧
+    Spec.npAllows engR.toView rpod (.pod ⟨"default", "c", [("app", "client")], [], "", "", "",
+      "127.0.0.1", false, none, none⟩ nsDefault.labels) (.pod rpod nsDefault.labels) .ingress .TCP 81
+      = false := by decide
+
+/-! 2. the flags -/
+example : isProtected ex.eng web true = true ∧ isProtected ex.eng web false = true ∧
+    isProtected ex.eng other true = false ∧ isProtected ex.eng other false = false := by decide
+
+/-! 3. the entire-cluster connection of `web`: TCP 9090 on ingress; UDP 53 on egress -/
+example : clusterWideConn ex.eng web true = .ok ⟨false, some ⟨[⟨9090, 9090⟩], [], []⟩, none, none⟩ ∧
+    clusterWideConn ex.eng web false = .ok ⟨false, none, some ⟨[⟨53, 53⟩], [], []⟩, none⟩ := by decide
+
+/-- a hypothetical pod in a new namespace `prod` labelled `env=prod`, declaring the port `pg` -/
+def qDb : Pod :=
+  { ns := "prod", name := "db", labels := [("role", "db")], ports := [⟨"pg", .TCP, 6432⟩] }
+def nslProd : Labels := [("kubernetes.io/metadata.name", "prod"), ("env", "prod")]
+
+/-- `SelectorsFullMatch` is sound for the selectors of `repProd` against the rule selectors of `np` -/
+theorem faithful_prod : Faithful ex.eng none (some selProd) := by
+  intro p hp r hr peer hpeer
+  have : p = np := by simpa [ex] using hp
+  subst this
+  simp only [np, List.cons_append, List.nil_append, List.mem_cons, List.not_mem_nil, or_false] at hr
+  rcases hr with rfl | rfl | rfl | rfl
+  · have : peer = .sel (some selClient) none := by simpa using hpeer
+    subst this
+    refine ⟨?_, ?_⟩
+    · intro h
+      exfalso
+      revert h
+      simp [selectorsFullMatch, Selector.isEmpty, Selector.reqStrings, selProd, nsNameLabelKey, np]
+    · intro ps hps
+      cases hps
+      exact fullMatchSound_none (by decide)
+  · have : peer = .sel none (some ⟨[], []⟩) := by simpa using hpeer
+    subst this
+    exact ⟨fullMatchSound_of_isEmpty (by decide) _, fun ps hps => by cases hps⟩
+  · have : peer = .sel none (some selProd) := by simpa using hpeer
+    subst this
+    exact ⟨fullMatchSound_self selProd, fun ps hps => by cases hps⟩
+  · simp at hpeer
+
+/-- the hypothetical pod satisfies the selectors of `repProd`'s entries -/
+theorem sat_qDb : Sat none (some selProd) qDb nslProd := by
+  unfold Sat
+  refine ⟨fun ps h => (by cases h), fun ns h => ?_⟩
+  cases h
+  decide
+theorem cons_qDb : NsConsistent qDb nslProd := by
+  unfold NsConsistent
+  decide
+
+/-- 4. the theorem at work on the egress result of `web` (which exists, `xgressExposure_ok`): every
+entry is realizable; an entry with the selectors of `repProd` that holds the name `pg` for TCP makes
+`web`'s policies allow TCP 6432 towards `qDb`, the port `qDb` declares under that name -/
+example : ∃ res, xgressExposure ex wWeb false = .ok res ∧ ∀ prot entries,
+    res = some (prot, entries) → ∀ en ∈ entries, en.podSel = none → en.nsSel = some selProd →
+      "pg" ∈ en.conn.names .TCP →
+      Spec.allowedDir ex.eng.toView (.pod web nsDefault.labels) (.pod qDb nslProd) (.pod qDb nslProd)
+        .egress .TCP 6432 = true := by
+  obtain ⟨res, hres⟩ := xgressExposure_ok ex (by decide) (by decide) (by decide) "default/web[Pod]" web
+    (by decide) (by decide) nsDefault (by decide) false
+  refine ⟨res, hres, ?_⟩
+  rintro prot entries rfl en hen hP hN hpg
+  obtain ⟨ns, hns, hall⟩ := exposure_entries_realizable ex rfl rfl (by decide) (by decide)
+    "default/web[Pod]" web (by decide) (by decide) false prot entries hres
+  have : ns = nsDefault := by
+    have h : ex.eng.findNs web.ns = some nsDefault := by decide
+    rw [h] at hns
+    exact (Option.some.inj hns).symm
+  subst this
+  have hsat : Sat en.podSel en.nsSel qDb nslProd := by rw [hP, hN]; exact sat_qDb
+  have hF : Faithful ex.eng en.podSel en.nsSel := by rw [hP, hN]; exact faithful_prod
+  exact hall en hen qDb nslProd (Or.inr ⟨hsat, cons_qDb, hF⟩) .TCP 6432
+    (Or.inr ⟨rfl, "pg", hpg, ⟨"pg", .TCP, 6432⟩, by decide, rfl, rfl⟩)
+
+end Examples
 
 end Netpol.Properties.C06
